@@ -166,10 +166,13 @@ class GradSampleModuleFastGradientClipping(GradSampleModule):
 
         for _, p in trainable_parameters(module):
             p._forward_counter += 1
+            if self.use_ghost_clipping and type(module) in self.NORM_SAMPLERS:
+                # the norm of this parameter's per-sample gradient comes from one use only
+                p._norm_sampler_use = True
             if (
                 self.use_ghost_clipping
                 and p._forward_counter > 1
-                and type(module) in self.NORM_SAMPLERS
+                and getattr(p, "_norm_sampler_use", False)
             ):
                 raise NotImplementedError(
                     "Parameter tying is not supported with Ghost Clipping"
